@@ -111,6 +111,8 @@ def parseOp (args : List String) : Option Op :=
   | ["unlock", p] => (fromHex p).map .apiUnlock
   | ["updpw", p, w] => do pure (.apiUpdatePassword (← fromHex p) (← fromHex w))
   | ["setcookie", b, c] => some (.setCookie (lit b) (parseCookie c))
+  | "setsess" :: b :: rest =>
+    some (.setSess (lit b) ((kvs rest).map fun kv => (SKey.ofName kv.1, (fromHex kv.2).getD [])))
   | "seed" :: rest =>
     let m := kvs rest
     some (.seedUser { pid := lookB m "pid", email := lookB m "pid", pw := lookB m "pw", confirmed := lookF m "conf",
